@@ -176,7 +176,8 @@ type inst struct {
 	// hook fold (C16)
 	hookFold *ribx.Model
 	hookErr  []string
-	// resolved-entry hook notifications (C16) are tested in the server-level harness.
+	// lastOks are the acknowledgements returned by the last AddEntry / DeleteEntry call.
+	lastOks []*rib.OpResult
 }
 
 // New returns the constructor for mc.Config.
@@ -304,6 +305,7 @@ func (in *inst) apply1(l Letter, check bool) []mc.Fail {
 	} else {
 		oks, fails, err = in.r.AddEntry(l.NI, op)
 	}
+	in.lastOks = oks
 	var out []mc.Fail
 	bad := func(sig, format string, a ...any) {
 		out = append(out, mc.Fail{Sig: sig, What: fmt.Sprintf(format, a...)})
